@@ -166,6 +166,38 @@ func oversize(kind int, n int) (Batch, string) {
 			rs.ScopeSpans().AppendEmpty().Spans().AppendEmpty().SetName("s")
 		}
 		return TB(td), "resources-without-attributes"
+	case 11: // log records whose attribute maps hold only entries the encoder drops (unset value / empty key)
+		ld := plog.NewLogs()
+		sl := ld.ResourceLogs().AppendEmpty().ScopeLogs().AppendEmpty()
+		sl.LogRecords().EnsureCapacity(n)
+		for i := 0; i < n; i++ {
+			m := sl.LogRecords().AppendEmpty().Attributes()
+			m.PutEmpty("k")
+			if i%2 == 0 {
+				m.PutInt("", int64(i))
+			}
+		}
+		return LB(ld), "logs-with-only-dropped-attributes"
+	case 12: // spans whose attribute maps hold only dropped entries
+		td := ptrace.NewTraces()
+		ss := td.ResourceSpans().AppendEmpty().ScopeSpans().AppendEmpty()
+		ss.Spans().EnsureCapacity(n)
+		for i := 0; i < n; i++ {
+			ss.Spans().AppendEmpty().Attributes().PutEmpty("k")
+		}
+		return TB(td), "spans-with-only-dropped-attributes"
+	case 13: // one-point metrics whose data-point attribute maps hold only dropped entries
+		md := pmetric.NewMetrics()
+		sm := md.ResourceMetrics().AppendEmpty().ScopeMetrics().AppendEmpty()
+		sm.Metrics().EnsureCapacity(n)
+		for i := 0; i < n; i++ {
+			m := sm.Metrics().AppendEmpty()
+			m.SetName("m")
+			dp := m.SetEmptyGauge().DataPoints().AppendEmpty()
+			dp.SetIntValue(int64(i))
+			dp.Attributes().PutEmpty("k")
+		}
+		return MB(md), "metrics-with-only-dropped-attributes"
 	default: // spans without attributes: representable (no 16-bit parent table involved)? still > 65,535 rows of a u16 delta id
 		td := ptrace.NewTraces()
 		ss := td.ResourceSpans().AppendEmpty().ScopeSpans().AppendEmpty()
@@ -177,7 +209,7 @@ func oversize(kind int, n int) (Batch, string) {
 	}
 }
 
-const numOversizeKinds = 11
+const numOversizeKinds = 14
 
 func smallValid(r *gen.G, sig canon.Signal) Batch {
 	r.ZeroBias = 0.4
